@@ -172,6 +172,7 @@ func extractAsm(repo, out string) ([]string, error) {
 	var defined []string
 	var recovers []string
 	funcs := map[string]*ast.FuncDecl{}
+	var argWrites [][2]string
 	for _, e := range ents {
 		if e.IsDir() || !strings.HasSuffix(e.Name(), ".go") || strings.HasSuffix(e.Name(), "_test.go") {
 			continue
@@ -218,6 +219,36 @@ func extractAsm(repo, out string) ([]string, error) {
 				if exported && asmHasRecover(td.Body) {
 					recovers = append(recovers, name)
 				}
+				// assignments into an argument list: `args[i] = …`, `x.Args[i] = …`, `x.Args = …` (the Eval functions get
+				// fn.Args... as args: a write there edits the plan)
+				ast.Inspect(td, func(n ast.Node) bool {
+					var lhs []ast.Expr
+					switch st := n.(type) {
+					case *ast.AssignStmt:
+						lhs = st.Lhs
+					case *ast.IncDecStmt:
+						lhs = []ast.Expr{st.X}
+					}
+					for _, l := range lhs {
+						base := l
+						if ix, ok := base.(*ast.IndexExpr); ok {
+							base = ix.X
+						} else if _, isSel := base.(*ast.SelectorExpr); !isSel {
+							continue
+						}
+						hit := false
+						switch b := base.(type) {
+						case *ast.Ident:
+							hit = b.Name == "args"
+						case *ast.SelectorExpr:
+							hit = b.Sel.Name == "Args"
+						}
+						if hit {
+							argWrites = append(argWrites, [2]string{name, asmExprText(fset, n)})
+						}
+					}
+					return true
+				})
 				// Define(&Fn{…}) / Define(&x) anywhere in a function body (the init functions)
 				var ierr error
 				ast.Inspect(td, func(n ast.Node) bool {
@@ -442,6 +473,21 @@ func extractAsm(repo, out string) ([]string, error) {
 	b.WriteString("]\n\n")
 	b.WriteString("/-- comparisons with a zero literal inside quotient() -/\n")
 	fmt.Fprintf(&b, "def quotientZeroTests : Nat := %d\n\n", zeroTests)
+	sort.Slice(argWrites, func(i, j int) bool {
+		if argWrites[i][0] != argWrites[j][0] {
+			return argWrites[i][0] < argWrites[j][0]
+		}
+		return argWrites[i][1] < argWrites[j][1]
+	})
+	b.WriteString("/-- every statement of package asm that assigns into an argument list (`args[i] = …`, `x.Args[i] = …`,\n`x.Args = …`): function, statement -/\n")
+	b.WriteString("def argWrites : List (String × String) := [")
+	for i, e := range argWrites {
+		if i > 0 {
+			b.WriteString(", ")
+		}
+		fmt.Fprintf(&b, "(%s, %s)", asmLeanStr(e[0]), asmLeanStr(e[1]))
+	}
+	b.WriteString("]\n\n")
 	b.WriteString("end OjgVerif.Gen.AsmFacts\n")
 	ch, err := writeIfChanged(filepath.Join(out, "AsmFacts.lean"), b.String())
 	if err != nil {
